@@ -536,6 +536,40 @@ fn operations_release_nothing(rep: &Report) {
     // (The payload key that key_decrypt recovers passes through a plain byte vector -- NoiseHandshake.message -- before it is
     // put into a PayloadKey; that transient is released unwiped on the unchanged tree. It is not one of the containers the
     // property quantifies over and is deliberately not searched for here; see DESIGN.md section 8.)
+    // many instances at once (more than any small pool would hold): 12 private keys and 12 payload keys of one value -- made
+    // from bytes and by cloning -- all alive together, then dropped one after the other with nothing in between; and the same
+    // with a clone made between the drops. No released block may hold the value.
+    for interleave in [false, true] {
+        rep.eval(1);
+        rep.nontrivial(format!("many-instances-{}", interleave).as_bytes());
+        let v = derive32(seed, "c20-many-value");
+        let mut privs: Vec<Box<PrivateKey>> = vec![];
+        let mut pays: Vec<Box<PayloadKey>> = vec![];
+        for i in 0..12 {
+            if i % 2 == 0 {
+                privs.push(Box::new(PrivateKey::try_from(&v[..]).unwrap()));
+                pays.push(Box::new(PayloadKey::new(&v)));
+            } else {
+                privs.push(Box::new((*privs[i - 1]).clone()));
+                pays.push(Box::new((*pays[i - 1]).clone()));
+            }
+        }
+        let (_, hits, size) = crate::mon::freed_with_secret(&v, || {
+            while let Some(k) = privs.pop() {
+                if interleave && privs.len() % 3 == 1 {
+                    let extra = Box::new((*k).clone());
+                    drop(extra);
+                }
+                drop(k);
+            }
+            while let Some(k) = pays.pop() {
+                drop(k);
+            }
+        });
+        if hits > 0 {
+            rep.violation("operations/released-with-a-key-inside", json!({"kind":"operations","op":"many-instances","interleave":interleave}), format!("12 private keys and 12 payload keys of one value dropped in a row{}: {} released block(s) still held the value (first: {} bytes)", if interleave { " with clones made in between" } else { "" }, hits, size));
+        }
+    }
     rep.extra("released_blocks_searched_for", json!(4));
 }
 
